@@ -54,6 +54,8 @@ def build_cases(tier, seed):
         if text not in seen:
             seen.add(text)
             cases.append(scripth.Case(p, tag='units-%d' % k, doms=doms))
+    # `get` in every unit mode (symbolic raw states; concrete ones for rgb)
+    cases += shapes.get_cases(scripth.Case)
     if tier == 'thorough':
         for p in shapes.sample(shapes.general_program(3, depth=2, vocab='core'), 5000, seed + 17):
             k += 1
